@@ -329,8 +329,10 @@ Print Assumptions C12_optimum_at_least_dual.
 (* a non-negative plan with column sums nu but row sums mu' (not necessarily mu) costs at least any
    certified lower bound on the optimum for (mu, nu), minus F times the mass it misplaces on the source
    side, where F bounds the source potential.  For a ground cost normalised to [0,1] one can take
-   F <= 1 without lowering the certificate (C12_potentials_bounded below), so the Sinkhorn cost is at
-   least (exact optimum) - sum_i |mu i - mu' i| whenever the certificate is optimal. *)
+   F <= 1 without lowering the certificate (C12_potentials_bounded below), so a plan's cost is at
+   least (exact optimum) - sum_i |mu i - mu' i| whenever the certificate is optimal.  This is the LP lemma only: that
+   an optimal certificate exists (strong duality) is not proved here, and the Sinkhorn plan of part C (over R) is not
+   re-expressed in this vocabulary. *)
 Theorem C12_plan_cost_lower_bound : forall n m d P f g mu mu' nu F,
   nonneg_plan n m P -> has_row_sums n m P mu' -> has_col_sums n m P nu ->
   dual_feasible n m d f g -> (forall i, (i < n)%nat -> qabs (f i) <= F) ->
